@@ -25,6 +25,26 @@ RAM = 'vizier._src.service.ram_datastore.NestedDictRAMDataStore'
 SQL = 'vizier._src.service.sql_datastore.SQLDataStore'
 
 
+class SqlWrapper:
+  """Rollback wrapper of the SQL datastore and how its call sites look."""
+
+  def __init__(self, fi, is_method: bool, qidx: int, qparam: str):
+    self.fi, self.is_method, self.qidx, self.qparam = fi, is_method, qidx, qparam
+    self.name = fi.name if fi is not None else ''
+    self.call_name = '' if fi is None else f'self.{fi.name}' if is_method else fi.name
+
+  def matches(self, c: ast.Call) -> bool:
+    return self.fi is not None and (dotted(c.func) or '') == self.call_name
+
+  def query(self, c: ast.Call):
+    if len(c.args) > self.qidx:
+      return c.args[self.qidx]
+    for k in c.keywords:
+      if k.arg == self.qparam:
+        return k.value
+    return None
+
+
 class Svc:
 
   def __init__(self, ctx):
@@ -87,7 +107,9 @@ class Svc:
       write = False
       for c in flow.calls_in(impl.node):
         d = dotted(c.func) or ''
-        if d.endswith('._write_or_rollback') or d.endswith('.commit'):
+        if self.sql_wrapper().matches(c) or d.endswith('.commit'):
+          write = True
+        if isinstance(c.func, ast.Attribute) and c.func.attr == 'update' and (dotted(c.func.value) or '') in ('sqla', 'sqlalchemy'):
           write = True
         if isinstance(c.func, ast.Attribute) and c.func.attr in ('insert', 'delete') and (
             dotted(c.func.value) or '').startswith('self._'):
@@ -96,6 +118,34 @@ class Svc:
           write = True
       kinds[m.name] = 'write' if write else 'read'
     return kinds
+
+  def sql_wrapper(self) -> 'SqlWrapper':
+    """The rollback wrapper of the SQL datastore, found by structure: a private method of SQLDataStore or a
+    private module-level function of its module that executes one of its parameters on a connection and is
+    called from at least three SQLDataStore methods."""
+    if getattr(self, '_sql_wrapper', None) is not None:
+      return self._sql_wrapper
+    cands = [(m, True) for m in self.sql.methods.values()] + [(f, False) for f in self.sql.module.functions.values()]
+    best = None
+    for f, is_method in cands:
+      if not f.name.startswith('_') or f.name.startswith('__'):
+        continue
+      params = [p for p in f.params if p not in ('self', 'cls')]
+      qparam = None
+      for c in flow.calls_in(f.node):
+        if isinstance(c.func, ast.Attribute) and c.func.attr == 'execute' and c.args \
+            and isinstance(c.args[0], ast.Name) and c.args[0].id in params:
+          qparam = c.args[0].id
+      if qparam is None:
+        continue
+      w = SqlWrapper(f, is_method, params.index(qparam), qparam)
+      users = sum(1 for o in self.sql.methods.values() if o is not f and any(w.matches(c) for c in flow.calls_in(o.node)))
+      if users >= 3 and (best is None or users > best[0]):
+        best = (users, w)
+    # no wrapper: the statements are executed directly (e.g. the wrapper was inlined by the normaliser);
+    # the transaction analysis then decides the rollback discipline on the direct executes
+    self._sql_wrapper = best[1] if best is not None else SqlWrapper(None, False, 0, '')
+    return self._sql_wrapper
 
   # ----------------------------------------------------------------- calls
   def ds_call(self, call: ast.Call) -> Optional[str]:
